@@ -49,6 +49,8 @@ func main() {
 		runC12(r, rng, thorough)
 	case "C11":
 		runC11(r, rng, thorough)
+	case "C08":
+		runC08(r, rng, thorough)
 	case "C14":
 		runC14(r, rng, thorough)
 	case "C17":
